@@ -3883,4 +3883,500 @@ theorem u32Weight_gen (x : Nat) (hx : x < 2 ^ 32) : u32Weight x = popN 32 x := b
 
 end Bits
 
+
+/-! ## u64Weight, all words: 32-bit lanes -/
+
+namespace Bits
+
+
+/-- lines 1–3 of u64Weight act on the two 32-bit lanes independently -/
+theorem wlanes64 (lo hi : Nat) (hlo : lo < 4294967296) (hhi : hi < 4294967296) :
+    ((((wg2 3689348814741910323 ((lo + 4294967296 * hi + (18446744073709551616 - ((lo + 4294967296 * hi) >>> 1 &&& 6148914691236517205))) % 18446744073709551616)) % 18446744073709551616)
+      + ((wg2 3689348814741910323 ((lo + 4294967296 * hi + (18446744073709551616 - ((lo + 4294967296 * hi) >>> 1 &&& 6148914691236517205))) % 18446744073709551616)) % 18446744073709551616) >>> 4) % 18446744073709551616) &&& 1085102592571150095
+      = wg3 252645135 (wg2 858993459 (wg1 1431655765 lo)) + 4294967296 * wg3 252645135 (wg2 858993459 (wg1 1431655765 hi)) := by
+  have eB : (4294967296 : Nat) = 2 ^ 32 := by norm_num
+  have h1 : (lo + 4294967296 * hi) >>> 1 &&& 6148914691236517205 = (lo >>> 1 &&& 1431655765) + 4294967296 * (hi >>> 1 &&& 1431655765) := by
+    have := split_shr_and (L := 32) (s := 1) (lo := lo) (hi := hi) (m := 1431655765) (m' := 1431655765)
+      (by rw [← eB]; exact hlo) (by norm_num) (by norm_num)
+    rw [← eB] at this
+    have e : (6148914691236517205 : Nat) = 1431655765 + 4294967296 * 1431655765 := by norm_num
+    rw [e]; exact this
+  have ha : lo >>> 1 &&& 1431655765 ≤ lo := Nat.le_trans Nat.and_le_left (Nat.shiftRight_le _ _)
+  have hb : hi >>> 1 &&& 1431655765 ≤ hi := Nat.le_trans Nat.and_le_left (Nat.shiftRight_le _ _)
+  have e1 : (lo + 4294967296 * hi + (18446744073709551616 - ((lo + 4294967296 * hi) >>> 1 &&& 6148914691236517205))) % 18446744073709551616
+      = wg1 1431655765 lo + 4294967296 * wg1 1431655765 hi := by
+    rw [h1]; unfold wg1; omega
+  rw [e1]
+  have hp : wg1 1431655765 lo < 4294967296 := by unfold wg1; omega
+  have hq : wg1 1431655765 hi < 4294967296 := by unfold wg1; omega
+  generalize wg1 1431655765 lo = p at *
+  generalize wg1 1431655765 hi = q at *
+  have h2a : (p + 4294967296 * q) &&& 3689348814741910323 = (p &&& 858993459) + 4294967296 * (q &&& 858993459) := by
+    have := split_and (L := 32) (lo := p) (hi := q) (m := 858993459) (m' := 858993459)
+      (by rw [← eB]; exact hp) (by norm_num)
+    rw [← eB] at this
+    have e : (3689348814741910323 : Nat) = 858993459 + 4294967296 * 858993459 := by norm_num
+    rw [e]; exact this
+  have h2b : (p + 4294967296 * q) >>> 2 &&& 3689348814741910323 = (p >>> 2 &&& 858993459) + 4294967296 * (q >>> 2 &&& 858993459) := by
+    have := split_shr_and (L := 32) (s := 2) (lo := p) (hi := q) (m := 858993459) (m' := 858993459)
+      (by rw [← eB]; exact hp) (by norm_num) (by norm_num)
+    rw [← eB] at this
+    have e : (3689348814741910323 : Nat) = 858993459 + 4294967296 * 858993459 := by norm_num
+    rw [e]; exact this
+  have b1 : p &&& 858993459 ≤ 858993459 := Nat.and_le_right
+  have b2 : p >>> 2 &&& 858993459 ≤ 858993459 := Nat.and_le_right
+  have b3 : q &&& 858993459 ≤ 858993459 := Nat.and_le_right
+  have b4 : q >>> 2 &&& 858993459 ≤ 858993459 := Nat.and_le_right
+  have n1 : (q &&& 858993459) % 16 ≤ 3 := by
+    have := @Nat.and_mod_two_pow q 858993459 4
+    have h3 : q % 2 ^ 4 &&& 858993459 % 2 ^ 4 ≤ 858993459 % 2 ^ 4 := Nat.and_le_right
+    norm_num at this h3; omega
+  have n2 : (q >>> 2 &&& 858993459) % 16 ≤ 3 := by
+    have := @Nat.and_mod_two_pow (q >>> 2) 858993459 4
+    have h3 : (q >>> 2) % 2 ^ 4 &&& 858993459 % 2 ^ 4 ≤ 858993459 % 2 ^ 4 := Nat.and_le_right
+    norm_num at this h3; omega
+  have e2 : (wg2 3689348814741910323 (p + 4294967296 * q)) % 18446744073709551616 = wg2 858993459 p + 4294967296 * wg2 858993459 q := by
+    unfold wg2; rw [h2a, h2b]; omega
+  have hb' : wg2 858993459 p ≤ 2 * 858993459 := by unfold wg2; omega
+  have hc' : wg2 858993459 q ≤ 2 * 858993459 := by unfold wg2; omega
+  have hc16 : wg2 858993459 q % 16 ≤ 6 := by unfold wg2; omega
+  rw [e2]
+  generalize wg2 858993459 p = b at *
+  generalize wg2 858993459 q = c at *
+  have e3 : b + 4294967296 * c + (b + 4294967296 * c) >>> 4 = (b + b / 16 + 268435456 * (c % 16)) + 4294967296 * (c + c / 16) := by
+    rw [Nat.shiftRight_eq_div_pow]; omega
+  have hlo' : b + b / 16 + 268435456 * (c % 16) < 4294967296 := by omega
+  have h3 : ((b + b / 16 + 268435456 * (c % 16)) + 4294967296 * (c + c / 16)) &&& 1085102592571150095
+      = ((b + b / 16 + 268435456 * (c % 16)) &&& 252645135) + 4294967296 * ((c + c / 16) &&& 252645135) := by
+    have := split_and (L := 32) (lo := b + b / 16 + 268435456 * (c % 16)) (hi := c + c / 16) (m := 252645135)
+      (m' := 252645135) (by rw [← eB]; exact hlo') (by norm_num)
+    rw [← eB] at this
+    have e : (1085102592571150095 : Nat) = 252645135 + 4294967296 * 252645135 := by norm_num
+    rw [e]; exact this
+  have h4 : (b + b / 16 + 268435456 * (c % 16)) &&& 252645135 = (b + b / 16) &&& 252645135 := by
+    have eP : (268435456 : Nat) = 2 ^ 28 := by norm_num
+    rw [and_low (k := 28) (y := b + b / 16 + 268435456 * (c % 16)) (by norm_num),
+      and_low (k := 28) (y := b + b / 16) (by norm_num), ← eP]
+    congr 1
+    omega
+  rw [e3, Nat.mod_eq_of_lt (by omega), h3, h4]
+  unfold wg3
+  rw [Nat.shiftRight_eq_div_pow, Nat.shiftRight_eq_div_pow]
+
+
+theorem tb4_d1 (c0 c1 c2 c3 : Nat) (h0 : c0 ≤ 15) (h1 : c1 ≤ 15) (h2 : c2 ≤ 15) (h3 : c3 ≤ 15) :
+    ((c0) + 256 * (c1) + 65536 * (c2) + 16777216 * (c3)) / 256 = (c1) + 256 * (c2) + 65536 * (c3) := by omega
+theorem tb4_a1 (c0 c1 c2 c3 : Nat) (h0 : c0 ≤ 15) (h1 : c1 ≤ 15) (h2 : c2 ≤ 15) (h3 : c3 ≤ 15) :
+    ((c0) + 256 * (c1) + 65536 * (c2) + 16777216 * (c3) + ((c1) + 256 * (c2) + 65536 * (c3))) % 4294967296 = (c0 + c1) + 256 * (c1 + c2) + 65536 * (c2 + c3) + 16777216 * (c3) := by omega
+theorem tb4_d2 (c0 c1 c2 c3 : Nat) (h0 : c0 ≤ 15) (h1 : c1 ≤ 15) (h2 : c2 ≤ 15) (h3 : c3 ≤ 15) :
+    ((c0 + c1) + 256 * (c1 + c2) + 65536 * (c2 + c3) + 16777216 * (c3)) / 65536 = (c2 + c3) + 256 * (c3) := by omega
+theorem tb4_a2 (c0 c1 c2 c3 : Nat) (h0 : c0 ≤ 15) (h1 : c1 ≤ 15) (h2 : c2 ≤ 15) (h3 : c3 ≤ 15) :
+    ((c0 + c1) + 256 * (c1 + c2) + 65536 * (c2 + c3) + 16777216 * (c3) + ((c2 + c3) + 256 * (c3))) % 4294967296 = (c0 + c1 + c2 + c3) + 256 * (c1 + c2 + c3) + 65536 * (c2 + c3) + 16777216 * (c3) := by omega
+theorem tb4_f (c0 c1 c2 c3 : Nat) (h0 : c0 ≤ 15) (h1 : c1 ≤ 15) (h2 : c2 ≤ 15) (h3 : c3 ≤ 15) :
+    ((c0 + c1 + c2 + c3) + 256 * (c1 + c2 + c3) + 65536 * (c2 + c3) + 16777216 * (c3)) % 64 = c0 + c1 + c2 + c3 := by omega
+theorem tail32_bytes (c0 c1 c2 c3 : Nat) (h0 : c0 ≤ 15) (h1 : c1 ≤ 15) (h2 : c2 ≤ 15) (h3 : c3 ≤ 15) :
+    ((((((c0) + 256 * (c1) + 65536 * (c2) + 16777216 * (c3)) + ((c0) + 256 * (c1) + 65536 * (c2) + 16777216 * (c3)) / 256) % 4294967296) + ((((c0) + 256 * (c1) + 65536 * (c2) + 16777216 * (c3)) + ((c0) + 256 * (c1) + 65536 * (c2) + 16777216 * (c3)) / 256) % 4294967296) / 65536) % 4294967296) % 64 = c0 + c1 + c2 + c3 := by
+  rw [tb4_d1 c0 c1 c2 c3 h0 h1 h2 h3, tb4_a1 c0 c1 c2 c3 h0 h1 h2 h3, tb4_d2 c0 c1 c2 c3 h0 h1 h2 h3, tb4_a2 c0 c1 c2 c3 h0 h1 h2 h3, tb4_f c0 c1 c2 c3 h0 h1 h2 h3]
+theorem tb8_d1 (c0 c1 c2 c3 c4 c5 c6 c7 : Nat) (h0 : c0 ≤ 15) (h1 : c1 ≤ 15) (h2 : c2 ≤ 15) (h3 : c3 ≤ 15) (h4 : c4 ≤ 15) (h5 : c5 ≤ 15) (h6 : c6 ≤ 15) (h7 : c7 ≤ 15) :
+    ((c0) + 256 * (c1) + 65536 * (c2) + 16777216 * (c3) + 4294967296 * (c4) + 1099511627776 * (c5) + 281474976710656 * (c6) + 72057594037927936 * (c7)) / 256 = (c1) + 256 * (c2) + 65536 * (c3) + 16777216 * (c4) + 4294967296 * (c5) + 1099511627776 * (c6) + 281474976710656 * (c7) := by omega
+theorem tb8_a1 (c0 c1 c2 c3 c4 c5 c6 c7 : Nat) (h0 : c0 ≤ 15) (h1 : c1 ≤ 15) (h2 : c2 ≤ 15) (h3 : c3 ≤ 15) (h4 : c4 ≤ 15) (h5 : c5 ≤ 15) (h6 : c6 ≤ 15) (h7 : c7 ≤ 15) :
+    ((c0) + 256 * (c1) + 65536 * (c2) + 16777216 * (c3) + 4294967296 * (c4) + 1099511627776 * (c5) + 281474976710656 * (c6) + 72057594037927936 * (c7) + ((c1) + 256 * (c2) + 65536 * (c3) + 16777216 * (c4) + 4294967296 * (c5) + 1099511627776 * (c6) + 281474976710656 * (c7))) % 18446744073709551616 = (c0 + c1) + 256 * (c1 + c2) + 65536 * (c2 + c3) + 16777216 * (c3 + c4) + 4294967296 * (c4 + c5) + 1099511627776 * (c5 + c6) + 281474976710656 * (c6 + c7) + 72057594037927936 * (c7) := by omega
+theorem tb8_d2 (c0 c1 c2 c3 c4 c5 c6 c7 : Nat) (h0 : c0 ≤ 15) (h1 : c1 ≤ 15) (h2 : c2 ≤ 15) (h3 : c3 ≤ 15) (h4 : c4 ≤ 15) (h5 : c5 ≤ 15) (h6 : c6 ≤ 15) (h7 : c7 ≤ 15) :
+    ((c0 + c1) + 256 * (c1 + c2) + 65536 * (c2 + c3) + 16777216 * (c3 + c4) + 4294967296 * (c4 + c5) + 1099511627776 * (c5 + c6) + 281474976710656 * (c6 + c7) + 72057594037927936 * (c7)) / 65536 = (c2 + c3) + 256 * (c3 + c4) + 65536 * (c4 + c5) + 16777216 * (c5 + c6) + 4294967296 * (c6 + c7) + 1099511627776 * (c7) := by omega
+theorem tb8_a2 (c0 c1 c2 c3 c4 c5 c6 c7 : Nat) (h0 : c0 ≤ 15) (h1 : c1 ≤ 15) (h2 : c2 ≤ 15) (h3 : c3 ≤ 15) (h4 : c4 ≤ 15) (h5 : c5 ≤ 15) (h6 : c6 ≤ 15) (h7 : c7 ≤ 15) :
+    ((c0 + c1) + 256 * (c1 + c2) + 65536 * (c2 + c3) + 16777216 * (c3 + c4) + 4294967296 * (c4 + c5) + 1099511627776 * (c5 + c6) + 281474976710656 * (c6 + c7) + 72057594037927936 * (c7) + ((c2 + c3) + 256 * (c3 + c4) + 65536 * (c4 + c5) + 16777216 * (c5 + c6) + 4294967296 * (c6 + c7) + 1099511627776 * (c7))) % 18446744073709551616 = (c0 + c1 + c2 + c3) + 256 * (c1 + c2 + c3 + c4) + 65536 * (c2 + c3 + c4 + c5) + 16777216 * (c3 + c4 + c5 + c6) + 4294967296 * (c4 + c5 + c6 + c7) + 1099511627776 * (c5 + c6 + c7) + 281474976710656 * (c6 + c7) + 72057594037927936 * (c7) := by omega
+theorem tb8_d3 (c0 c1 c2 c3 c4 c5 c6 c7 : Nat) (h0 : c0 ≤ 15) (h1 : c1 ≤ 15) (h2 : c2 ≤ 15) (h3 : c3 ≤ 15) (h4 : c4 ≤ 15) (h5 : c5 ≤ 15) (h6 : c6 ≤ 15) (h7 : c7 ≤ 15) :
+    ((c0 + c1 + c2 + c3) + 256 * (c1 + c2 + c3 + c4) + 65536 * (c2 + c3 + c4 + c5) + 16777216 * (c3 + c4 + c5 + c6) + 4294967296 * (c4 + c5 + c6 + c7) + 1099511627776 * (c5 + c6 + c7) + 281474976710656 * (c6 + c7) + 72057594037927936 * (c7)) / 4294967296 = (c4 + c5 + c6 + c7) + 256 * (c5 + c6 + c7) + 65536 * (c6 + c7) + 16777216 * (c7) := by omega
+theorem tb8_a3 (c0 c1 c2 c3 c4 c5 c6 c7 : Nat) (h0 : c0 ≤ 15) (h1 : c1 ≤ 15) (h2 : c2 ≤ 15) (h3 : c3 ≤ 15) (h4 : c4 ≤ 15) (h5 : c5 ≤ 15) (h6 : c6 ≤ 15) (h7 : c7 ≤ 15) :
+    ((c0 + c1 + c2 + c3) + 256 * (c1 + c2 + c3 + c4) + 65536 * (c2 + c3 + c4 + c5) + 16777216 * (c3 + c4 + c5 + c6) + 4294967296 * (c4 + c5 + c6 + c7) + 1099511627776 * (c5 + c6 + c7) + 281474976710656 * (c6 + c7) + 72057594037927936 * (c7) + ((c4 + c5 + c6 + c7) + 256 * (c5 + c6 + c7) + 65536 * (c6 + c7) + 16777216 * (c7))) % 18446744073709551616 = (c0 + c1 + c2 + c3 + c4 + c5 + c6 + c7) + 256 * (c1 + c2 + c3 + c4 + c5 + c6 + c7) + 65536 * (c2 + c3 + c4 + c5 + c6 + c7) + 16777216 * (c3 + c4 + c5 + c6 + c7) + 4294967296 * (c4 + c5 + c6 + c7) + 1099511627776 * (c5 + c6 + c7) + 281474976710656 * (c6 + c7) + 72057594037927936 * (c7) := by omega
+theorem tb8_f (c0 c1 c2 c3 c4 c5 c6 c7 : Nat) (h0 : c0 ≤ 15) (h1 : c1 ≤ 15) (h2 : c2 ≤ 15) (h3 : c3 ≤ 15) (h4 : c4 ≤ 15) (h5 : c5 ≤ 15) (h6 : c6 ≤ 15) (h7 : c7 ≤ 15) :
+    ((c0 + c1 + c2 + c3 + c4 + c5 + c6 + c7) + 256 * (c1 + c2 + c3 + c4 + c5 + c6 + c7) + 65536 * (c2 + c3 + c4 + c5 + c6 + c7) + 16777216 * (c3 + c4 + c5 + c6 + c7) + 4294967296 * (c4 + c5 + c6 + c7) + 1099511627776 * (c5 + c6 + c7) + 281474976710656 * (c6 + c7) + 72057594037927936 * (c7)) % 128 = c0 + c1 + c2 + c3 + c4 + c5 + c6 + c7 := by omega
+theorem tail64_bytes (c0 c1 c2 c3 c4 c5 c6 c7 : Nat) (h0 : c0 ≤ 15) (h1 : c1 ≤ 15) (h2 : c2 ≤ 15) (h3 : c3 ≤ 15) (h4 : c4 ≤ 15) (h5 : c5 ≤ 15) (h6 : c6 ≤ 15) (h7 : c7 ≤ 15) :
+    ((((((((c0) + 256 * (c1) + 65536 * (c2) + 16777216 * (c3) + 4294967296 * (c4) + 1099511627776 * (c5) + 281474976710656 * (c6) + 72057594037927936 * (c7)) + ((c0) + 256 * (c1) + 65536 * (c2) + 16777216 * (c3) + 4294967296 * (c4) + 1099511627776 * (c5) + 281474976710656 * (c6) + 72057594037927936 * (c7)) / 256) % 18446744073709551616) + ((((c0) + 256 * (c1) + 65536 * (c2) + 16777216 * (c3) + 4294967296 * (c4) + 1099511627776 * (c5) + 281474976710656 * (c6) + 72057594037927936 * (c7)) + ((c0) + 256 * (c1) + 65536 * (c2) + 16777216 * (c3) + 4294967296 * (c4) + 1099511627776 * (c5) + 281474976710656 * (c6) + 72057594037927936 * (c7)) / 256) % 18446744073709551616) / 65536) % 18446744073709551616) + ((((((c0) + 256 * (c1) + 65536 * (c2) + 16777216 * (c3) + 4294967296 * (c4) + 1099511627776 * (c5) + 281474976710656 * (c6) + 72057594037927936 * (c7)) + ((c0) + 256 * (c1) + 65536 * (c2) + 16777216 * (c3) + 4294967296 * (c4) + 1099511627776 * (c5) + 281474976710656 * (c6) + 72057594037927936 * (c7)) / 256) % 18446744073709551616) + ((((c0) + 256 * (c1) + 65536 * (c2) + 16777216 * (c3) + 4294967296 * (c4) + 1099511627776 * (c5) + 281474976710656 * (c6) + 72057594037927936 * (c7)) + ((c0) + 256 * (c1) + 65536 * (c2) + 16777216 * (c3) + 4294967296 * (c4) + 1099511627776 * (c5) + 281474976710656 * (c6) + 72057594037927936 * (c7)) / 256) % 18446744073709551616) / 65536) % 18446744073709551616) / 4294967296) % 18446744073709551616) % 128 = c0 + c1 + c2 + c3 + c4 + c5 + c6 + c7 := by
+  rw [tb8_d1 c0 c1 c2 c3 c4 c5 c6 c7 h0 h1 h2 h3 h4 h5 h6 h7, tb8_a1 c0 c1 c2 c3 c4 c5 c6 c7 h0 h1 h2 h3 h4 h5 h6 h7, tb8_d2 c0 c1 c2 c3 c4 c5 c6 c7 h0 h1 h2 h3 h4 h5 h6 h7, tb8_a2 c0 c1 c2 c3 c4 c5 c6 c7 h0 h1 h2 h3 h4 h5 h6 h7, tb8_d3 c0 c1 c2 c3 c4 c5 c6 c7 h0 h1 h2 h3 h4 h5 h6 h7, tb8_a3 c0 c1 c2 c3 c4 c5 c6 c7 h0 h1 h2 h3 h4 h5 h6 h7, tb8_f c0 c1 c2 c3 c4 c5 c6 c7 h0 h1 h2 h3 h4 h5 h6 h7]
+
+
+def wT32 (y : Nat) : Nat := wg3 252645135 (wg2 858993459 (wg1 1431655765 y))
+
+theorem and_byte_le (Z m k : Nat) : (Z &&& m) / 2 ^ k % 2 ^ 8 ≤ m / 2 ^ k % 2 ^ 8 := by
+  rw [← Nat.shiftRight_eq_div_pow, ← Nat.shiftRight_eq_div_pow, Nat.shiftRight_and_distrib,
+    Nat.and_mod_two_pow]
+  exact Nat.and_le_right
+
+theorem wT32_bytes (y : Nat) : ∃ c0 c1 c2 c3, c0 ≤ 15 ∧ c1 ≤ 15 ∧ c2 ≤ 15 ∧ c3 ≤ 15 ∧
+    wT32 y = (c0) + 256 * (c1) + 65536 * (c2) + 16777216 * (c3) := by
+  unfold wT32 wg3
+  generalize wg2 858993459 (wg1 1431655765 y) + wg2 858993459 (wg1 1431655765 y) >>> 4 = Z
+  have hT : Z &&& 252645135 ≤ 252645135 := Nat.and_le_right
+  have k0 := and_byte_le Z 252645135 0
+  have k1 := and_byte_le Z 252645135 8
+  have k2 := and_byte_le Z 252645135 16
+  have k3 := and_byte_le Z 252645135 24
+  norm_num at k0 k1 k2 k3
+  generalize Z &&& 252645135 = T at *
+  exact ⟨T % 256, T / 256 % 256, T / 65536 % 256, T / 16777216 % 256, k0, k1, k2, k3, by omega⟩
+
+theorem u32Weight_lanes (y : Nat) (hy : y < 4294967296) :
+    u32Weight y = ((wT32 y + wT32 y / 256) % 4294967296 + (wT32 y + wT32 y / 256) % 4294967296 / 65536) % 4294967296 % 64 := by
+  unfold u32Weight wT32 wg3 wg2 wg1
+  simp only [Nat.shiftRight_eq_div_pow]
+  have e3f : (0x0000003F : Nat) = 2 ^ 6 - 1 := by norm_num
+  rw [e3f, Nat.and_two_pow_sub_one_eq_mod]
+  have ha : y / 2 ^ 1 &&& 1431655765 ≤ y := Nat.le_trans Nat.and_le_left (Nat.div_le_self _ _)
+  have e1 : (y + (4294967296 - (y / 2 ^ 1 &&& 1431655765))) % 4294967296 = y - (y / 2 ^ 1 &&& 1431655765) := by omega
+  rw [e1]
+  generalize y - (y / 2 ^ 1 &&& 1431655765) = s1
+  have hb1 : s1 &&& 858993459 ≤ 858993459 := Nat.and_le_right
+  have hb2 : s1 / 2 ^ 2 &&& 858993459 ≤ 858993459 := Nat.and_le_right
+  have e2 : ((s1 &&& 858993459) + (s1 / 2 ^ 2 &&& 858993459)) % 4294967296 = (s1 &&& 858993459) + (s1 / 2 ^ 2 &&& 858993459) := by
+    omega
+  rw [e2]
+  have hs2 : (s1 &&& 858993459) + (s1 / 2 ^ 2 &&& 858993459) ≤ 2 * 858993459 := by omega
+  generalize (s1 &&& 858993459) + (s1 / 2 ^ 2 &&& 858993459) = s2 at *
+  have e3 : (s2 + s2 / 2 ^ 4) % 4294967296 = s2 + s2 / 2 ^ 4 := by omega
+  rw [e3]
+
+theorem u32Weight_bytes (y : Nat) (hy : y < 4294967296) : ∃ c0 c1 c2 c3, c0 ≤ 15 ∧ c1 ≤ 15 ∧ c2 ≤ 15 ∧
+    c3 ≤ 15 ∧ wT32 y = (c0) + 256 * (c1) + 65536 * (c2) + 16777216 * (c3) ∧
+    u32Weight y = c0 + c1 + c2 + c3 := by
+  obtain ⟨c0, c1, c2, c3, h0, h1, h2, h3, hT⟩ := wT32_bytes y
+  refine ⟨c0, c1, c2, c3, h0, h1, h2, h3, hT, ?_⟩
+  rw [u32Weight_lanes y hy, hT]
+  exact tail32_bytes c0 c1 c2 c3 h0 h1 h2 h3
+
+/-- lines 1–3 of u64Weight -/
+def u64W3 (x : Nat) : Nat :=
+  let w := (x + (18446744073709551616 - ((x >>> 1) &&& 6148914691236517205))) % 18446744073709551616
+  let w := ((w &&& 3689348814741910323) + ((w >>> 2) &&& 3689348814741910323)) % 18446744073709551616
+  ((w + (w >>> 4)) % 18446744073709551616) &&& 1085102592571150095
+
+theorem u64Weight_tail (x : Nat) : u64Weight x =
+    ((((u64W3 x + u64W3 x >>> 8) % 18446744073709551616 + ((u64W3 x + u64W3 x >>> 8) % 18446744073709551616) >>> 16) % 18446744073709551616
+      + (((u64W3 x + u64W3 x >>> 8) % 18446744073709551616 + ((u64W3 x + u64W3 x >>> 8) % 18446744073709551616) >>> 16) % 18446744073709551616) >>> 32)
+      % 18446744073709551616) &&& 0x7F := rfl
+
+theorem u64W3_lanes (lo hi : Nat) (hlo : lo < 4294967296) (hhi : hi < 4294967296) :
+    u64W3 (lo + 4294967296 * hi) = wT32 lo + 4294967296 * wT32 hi := by
+  have hl := wlanes64 lo hi hlo hhi
+  unfold wg2 at hl
+  exact hl
+
+theorem u64Weight_split (x : Nat) (hx : x < 2 ^ 64) :
+    u64Weight x = u32Weight (x % 4294967296) + u32Weight (x / 4294967296) := by
+  have hlo : x % 4294967296 < 4294967296 := Nat.mod_lt _ (by norm_num)
+  have hhi : x / 4294967296 < 4294967296 := by omega
+  have hxx : x = x % 4294967296 + 4294967296 * (x / 4294967296) := by omega
+  obtain ⟨c0, c1, c2, c3, h0, h1, h2, h3, hT0, hW0⟩ := u32Weight_bytes _ hlo
+  obtain ⟨c4, c5, c6, c7, h4, h5, h6, h7, hT1, hW1⟩ := u32Weight_bytes _ hhi
+  have hl := u64W3_lanes _ _ hlo hhi
+  rw [← hxx, hT0, hT1] at hl
+  rw [hW0, hW1, u64Weight_tail, hl]
+  have e7f : (0x7F : Nat) = 2 ^ 7 - 1 := by norm_num
+  rw [e7f, Nat.and_two_pow_sub_one_eq_mod]
+  simp only [Nat.shiftRight_eq_div_pow, Nat.reducePow]
+  have e0 : (c0) + 256 * (c1) + 65536 * (c2) + 16777216 * (c3) +
+      4294967296 * ((c4) + 256 * (c5) + 65536 * (c6) + 16777216 * (c7))
+      = (c0) + 256 * (c1) + 65536 * (c2) + 16777216 * (c3) + 4294967296 * (c4) + 1099511627776 * (c5)
+        + 281474976710656 * (c6) + 72057594037927936 * (c7) := by omega
+  rw [e0]
+  exact (tail64_bytes c0 c1 c2 c3 c4 c5 c6 c7 h0 h1 h2 h3 h4 h5 h6 h7).trans (by omega)
+
+theorem u64Weight_gen (x : Nat) (hx : x < 2 ^ 64) : u64Weight x = popN 64 x := by
+  have hlo : x % 4294967296 < 2 ^ 32 := Nat.mod_lt _ (by norm_num)
+  have hhi : x / 4294967296 < 2 ^ 32 := by omega
+  rw [u64Weight_split x hx, u32Weight_gen _ hlo, u32Weight_gen _ hhi,
+    show (64 : Nat) = 32 + 32 from rfl, popN_add, popN_mod 32 x]
+  norm_num
+
+theorem popN_le : ∀ k x, popN k x ≤ k := by
+  intro k
+  induction k with
+  | zero => intro x; simp [popN]
+  | succ k ih =>
+    intro x
+    have := ih (x / 2)
+    have : x % 2 < 2 := Nat.mod_lt _ (by decide)
+    rw [popN]; omega
+
+end Bits
+
+
+/-! ## wwCmpW, wwXor -/
+
+namespace Bits
+
+theorem foldl_or_zero : ∀ (l : List Nat) (d : Nat),
+    l.foldl (fun d y => d ||| y) d = 0 ↔ d = 0 ∧ ∀ y ∈ l, y = 0 := by
+  intro l
+  induction l with
+  | nil => intro d; simp
+  | cons y ys ih =>
+    intro d
+    rw [List.foldl_cons, ih]
+    constructor
+    · intro ⟨h1, h2⟩
+      have := Nat.or_eq_zero_iff.mp h1
+      exact ⟨this.1, fun z hz => by
+        rcases List.mem_cons.mp hz with e | e
+        · rw [e]; exact this.2
+        · exact h2 z e⟩
+    · intro ⟨h1, h2⟩
+      exact ⟨by rw [h1, h2 y (List.mem_cons_self)]; rfl, fun z hz => h2 z (List.mem_cons_of_mem _ hz)⟩
+
+theorem val_zero_iff (w : Nat) : ∀ (l : List Nat), val w l = 0 ↔ ∀ y ∈ l, y = 0 := by
+  intro l
+  induction l with
+  | nil => simp [val]
+  | cons y ys ih =>
+    rw [val_cons]
+    have hp := Nat.two_pow_pos w
+    constructor
+    · intro h
+      have h1 : y = 0 := by omega
+      have h2 : val w ys = 0 := by
+        rcases Nat.eq_zero_or_pos (val w ys) with e | e
+        · exact e
+        · have : 2 ^ w * 1 ≤ 2 ^ w * val w ys := Nat.mul_le_mul_left _ e
+          omega
+      intro z hz
+      rcases List.mem_cons.mp hz with e | e
+      · rw [e]; exact h1
+      · exact ih.mp h2 z e
+    · intro h
+      rw [h y List.mem_cons_self, ih.mpr (fun z hz => h z (List.mem_cons_of_mem _ hz))]; simp
+
+theorem cmpW_fastLoop_zero : ∀ (l : List Nat),
+    wwCmpW_fastLoop 0 l = if ∀ y ∈ l, y = 0 then 0 else 1 := by
+  have h1 : ∀ l : List Nat, wwCmpW_fastLoop 1 l = 1 := by
+    intro l; cases l <;> simp [wwCmpW_fastLoop]
+  intro l
+  induction l with
+  | nil => simp [wwCmpW_fastLoop]
+  | cons y ys ih =>
+    simp only [wwCmpW_fastLoop, beq_self_eq_true, if_true]
+    by_cases hy : y = 0
+    · subst hy
+      simp only [beq_self_eq_true, if_true, ih]
+      simp
+    · have hb : (y == 0) = false := by simp [hy]
+      simp only [hb, Bool.false_eq_true, if_false, h1]
+      have : ¬ ∀ z ∈ (y :: ys), z = 0 := fun h => hy (h y (by simp))
+      rw [if_neg this]
+
+/-- the three-way comparison of numbers as an `Int` -/
+def cmp3 (u v : Nat) : Int := if u < v then -1 else if u > v then 1 else 0
+
+theorem wwCmpW_both {w : Nat} (a : List Nat) (x : Nat) (h : Wf w a) (hx : x < 2 ^ w) :
+    wwCmpW_safe w a x = cmp3 (val w a) x ∧ wwCmpW_fast w a x = cmp3 (val w a) x := by
+  cases a with
+  | nil =>
+    unfold wwCmpW_safe wwCmpW_fast cmp3
+    simp only [val]
+    by_cases c : x = 0
+    · simp [c]
+    · have : 0 < x := Nat.pos_of_ne_zero c
+      simp [c, this]
+  | cons a0 as =>
+    obtain ⟨h0, hs⟩ := Wf_cons.mp h
+    unfold wwCmpW_safe wwCmpW_fast
+    simp only [cmpW_fastLoop_zero]
+    have hzr : (∀ y ∈ as.reverse, y = 0) ↔ (∀ y ∈ as, y = 0) := by
+      constructor
+      · intro hh y hy; exact hh y (List.mem_reverse.mpr hy)
+      · intro hh y hy; exact hh y (List.mem_reverse.mp hy)
+    by_cases hz : ∀ y ∈ as, y = 0
+    · have hv := (val_zero_iff w as).mpr hz
+      have hf : as.reverse.foldl (fun d y => d ||| y) 0 = 0 :=
+        (foldl_or_zero _ 0).mpr ⟨rfl, hzr.mpr hz⟩
+      have hval : val w (a0 :: as) = a0 := by rw [val_cons, hv]; omega
+      rw [hf, if_pos (hzr.mpr hz)]
+      unfold cmp3
+      simp only [hval]
+      simp
+    · have hv : 0 < val w as := Nat.pos_of_ne_zero (fun e => hz ((val_zero_iff w as).mp e))
+      have hf : ¬ as.reverse.foldl (fun d y => d ||| y) 0 = 0 := fun e =>
+        hz (hzr.mp ((foldl_or_zero _ 0).mp e).2)
+      have hb : (as.reverse.foldl (fun d y => d ||| y) 0 == 0) = false := by
+        rw [beq_eq_false_iff_ne]; exact hf
+      have hge : 2 ^ w * 1 ≤ 2 ^ w * val w as := Nat.mul_le_mul_left _ hv
+      have hval : val w (a0 :: as) = a0 + 2 ^ w * val w as := rfl
+      have c1 : ¬ val w (a0 :: as) < x := by omega
+      have c2 : val w (a0 :: as) > x := by omega
+      have hzr' : ¬ ∀ y ∈ as.reverse, y = 0 := fun hh => hz (hzr.mp hh)
+      rw [hb, if_neg hzr']
+      unfold cmp3
+      simp [c1, c2]
+
+theorem xor_cons_val {w x y X Y : Nat} (hx : x < 2 ^ w) (hy : y < 2 ^ w) :
+    (x + 2 ^ w * X) ^^^ (y + 2 ^ w * Y) = (x ^^^ y) + 2 ^ w * (X ^^^ Y) := by
+  apply Nat.eq_of_testBit_eq
+  intro j
+  rw [Nat.testBit_xor, Nat.add_comm x, Nat.add_comm y, Nat.add_comm (x ^^^ y),
+    Nat.testBit_two_pow_mul_add _ hx, Nat.testBit_two_pow_mul_add _ hy,
+    Nat.testBit_two_pow_mul_add _ (Nat.xor_lt_two_pow hx hy)]
+  split <;> simp [Nat.testBit_xor]
+
+theorem wwXor_val {w : Nat} : ∀ (a b : List Nat), a.length = b.length → Wf w a → Wf w b →
+    (wwXor a b).length = a.length ∧ Wf w (wwXor a b) ∧ val w (wwXor a b) = val w a ^^^ val w b := by
+  intro a
+  induction a with
+  | nil => intro b hl _ _; cases b <;> simp_all [wwXor, val, Wf_nil]
+  | cons x xs ih =>
+    intro b hl ha hb
+    cases b with
+    | nil => simp at hl
+    | cons y ys =>
+      obtain ⟨hx, hxs⟩ := Wf_cons.mp ha
+      obtain ⟨hy, hys⟩ := Wf_cons.mp hb
+      obtain ⟨i1, i2, i3⟩ := ih ys (by simpa using hl) hxs hys
+      unfold wwXor at i1 i2 i3 ⊢
+      simp only [List.zipWith_cons_cons, List.length_cons, val_cons]
+      refine ⟨by rw [i1], Wf_cons.mpr ⟨Nat.xor_lt_two_pow hx hy, i2⟩, ?_⟩
+      rw [i3, xor_cons_val hx hy]
+
+end Bits
+
+
+/-! ## wwFrom / wwTo (little-endian host) -/
+
+namespace Bits
+
+theorem ft_val_append (w : Nat) : ∀ (l1 l2 : List Nat),
+    val w (l1 ++ l2) = val w l1 + 2 ^ (w * l1.length) * val w l2 := by
+  intro l1
+  induction l1 with
+  | nil => intro l2; simp [val]
+  | cons x xs ih =>
+    intro l2
+    rw [List.cons_append, val_cons, val_cons, ih, List.length_cons]
+    have : 2 ^ (w * (xs.length + 1)) = 2 ^ w * 2 ^ (w * xs.length) := by
+      rw [← Nat.pow_add]; congr 1; ring
+    rw [this]; ring
+
+theorem ft_val_zeros (w k : Nat) : val w (List.replicate k 0) = 0 := by
+  induction k with
+  | zero => rfl
+  | succ k ih => simp [List.replicate_succ, val, ih]
+
+theorem ft_Wf_take {w : Nat} {l : List Nat} (h : Wf w l) (k : Nat) : Wf w (l.take k) :=
+  fun x hx => h x (List.mem_of_mem_take hx)
+theorem ft_Wf_drop {w : Nat} {l : List Nat} (h : Wf w l) (k : Nat) : Wf w (l.drop k) :=
+  fun x hx => h x (List.mem_of_mem_drop hx)
+
+theorem octetsToWords_val (O : Nat) : ∀ (n : Nat) (buf : List Nat), buf.length = n * O →
+    (octetsToWords O n buf).length = n ∧ val (8 * O) (octetsToWords O n buf) = val 8 buf := by
+  intro n
+  induction n with
+  | zero =>
+    intro buf hl
+    have : buf = [] := List.eq_nil_of_length_eq_zero (by simpa using hl)
+    subst this; exact ⟨rfl, rfl⟩
+  | succ n ih =>
+    intro buf hl
+    have hlt : (buf.take O).length = O := by
+      rw [List.length_take, hl, Nat.succ_mul]; omega
+    have hld : (buf.drop O).length = n * O := by
+      rw [List.length_drop, hl, Nat.succ_mul]; omega
+    obtain ⟨i1, i2⟩ := ih (buf.drop O) hld
+    simp only [octetsToWords, List.length_cons, val_cons]
+    refine ⟨by rw [i1], ?_⟩
+    rw [i2]
+    conv_rhs => rw [← List.take_append_drop O buf, ft_val_append, hlt]
+
+theorem ft_toWords_val : ∀ (l : List Nat), Wf 8 l → toWords 8 l.length (val 8 l) = l := by
+  intro l
+  induction l with
+  | nil => intro _; rfl
+  | cons x xs ih =>
+    intro h
+    obtain ⟨hx, hxs⟩ := Wf_cons.mp h
+    have h256 : (2 : Nat) ^ 8 = 256 := by norm_num
+    rw [h256] at hx
+    simp only [List.length_cons, toWords, val_cons, h256]
+    have e1 : (x + 256 * val 8 xs) % 256 = x := by omega
+    have e2 : (x + 256 * val 8 xs) / 256 = val 8 xs := by omega
+    rw [e1, e2, ih hxs]
+
+theorem wordsToOctets_octetsToWords (O : Nat) : ∀ (n : Nat) (buf : List Nat), buf.length = n * O →
+    Wf 8 buf → wordsToOctets O (octetsToWords O n buf) = buf := by
+  intro n
+  induction n with
+  | zero =>
+    intro buf hl _
+    have : buf = [] := List.eq_nil_of_length_eq_zero (by simpa using hl)
+    subst this; rfl
+  | succ n ih =>
+    intro buf hl hw
+    have hlt : (buf.take O).length = O := by
+      rw [List.length_take, hl, Nat.succ_mul]; omega
+    have hld : (buf.drop O).length = n * O := by
+      rw [List.length_drop, hl, Nat.succ_mul]; omega
+    simp only [octetsToWords, wordsToOctets]
+    rw [ih (buf.drop O) hld (ft_Wf_drop hw O)]
+    have := ft_toWords_val (buf.take O) (ft_Wf_take hw O)
+    rw [hlt] at this
+    rw [this, List.take_append_drop]
+
+theorem ft_pad_len (O len : Nat) (hO : 0 < O) : len ≤ (len + O - 1) / O * O := by
+  have h := Nat.lt_mul_div_succ (len + O - 1) hO
+  rw [Nat.mul_add, Nat.mul_one, Nat.mul_comm] at h
+  omega
+
+theorem wwFrom_val {w : Nat} (O : Nat) (hO : 0 < O) (hw8 : w = 8 * O) (o : List Nat) :
+    (wwFrom w o).length = (o.length + O - 1) / O ∧ val w (wwFrom w o) = val 8 o := by
+  have hwO : w / 8 = O := by omega
+  unfold wwFrom
+  simp only [hwO]
+  have hpad := ft_pad_len O o.length hO
+  have hl : (o ++ List.replicate ((o.length + O - 1) / O * O - o.length) 0).length
+      = (o.length + O - 1) / O * O := by
+    rw [List.length_append, List.length_replicate]; omega
+  obtain ⟨h1, h2⟩ := octetsToWords_val O _ _ hl
+  refine ⟨h1, ?_⟩
+  rw [hw8, h2, ft_val_append, ft_val_zeros]; simp
+
+theorem wwTo_wwFrom {w : Nat} (O : Nat) (hO : 0 < O) (hw8 : w = 8 * O) (o : List Nat) (ho : Wf 8 o) :
+    wwTo w o.length (wwFrom w o) = o := by
+  have hwO : w / 8 = O := by omega
+  unfold wwTo wwFrom
+  simp only [hwO]
+  have hpad := ft_pad_len O o.length hO
+  have hl : (o ++ List.replicate ((o.length + O - 1) / O * O - o.length) 0).length
+      = (o.length + O - 1) / O * O := by
+    rw [List.length_append, List.length_replicate]; omega
+  have hwf : Wf 8 (o ++ List.replicate ((o.length + O - 1) / O * O - o.length) 0) := by
+    intro x hx
+    rcases List.mem_append.mp hx with h1 | h1
+    · exact ho x h1
+    · rw [(List.mem_replicate.mp h1).2]; norm_num
+  rw [wordsToOctets_octetsToWords O _ _ hl hwf]
+  simp
+
+theorem octetsToWords_Wf (O : Nat) : ∀ (n : Nat) (buf : List Nat), Wf 8 buf →
+    Wf (8 * O) (octetsToWords O n buf) := by
+  intro n
+  induction n with
+  | zero => intro buf _; exact Wf_nil _
+  | succ n ih =>
+    intro buf hw
+    simp only [octetsToWords]
+    refine Wf_cons.mpr ⟨?_, ih _ (ft_Wf_drop hw O)⟩
+    have h1 := val_lt (buf.take O) (ft_Wf_take hw O)
+    have h2 : (buf.take O).length ≤ O := by rw [List.length_take]; omega
+    exact Nat.lt_of_lt_of_le h1 (Nat.pow_le_pow_right (by decide) (Nat.mul_le_mul_left 8 h2))
+
+theorem wwFrom_Wf {w : Nat} (O : Nat) (hw8 : w = 8 * O) (o : List Nat) (ho : Wf 8 o) :
+    Wf w (wwFrom w o) := by
+  have hwO : w / 8 = O := by omega
+  unfold wwFrom
+  simp only [hwO]
+  rw [hw8]
+  apply octetsToWords_Wf
+  intro x hx
+  rcases List.mem_append.mp hx with h1 | h1
+  · exact ho x h1
+  · rw [(List.mem_replicate.mp h1).2]; norm_num
+
+end Bits
+
 end Bee2V.C05
